@@ -335,8 +335,9 @@ def _blocked_batch(ev, out, seed, d1, d2, generator_of, methods):
     ok = ok and lp.lo is not None and lp.lo.key() == seed.key() and lp.hi is not None and (lp.hi - seed - d1).is_zero() \
         and B is not None and B.const_value() is not None and B.const_value() > 0
     ok = ok and lo_w.key() == i.key() and dim.key() == d2.key()
-    hk = hi_w.key()
-    ok = ok and hk in (f"min({i + B - 1}, {last})", f"min({last}, {i + B - 1})")
+    ha = hi_w.as_atom()
+    ok = ok and bool(ha and ha[0] == "call" and call_name(ha) == "min" and len(ha[2]) == 2
+                     and {x.key() for x in ha[2]} == {(i + B - 1).key(), last.key()})
     s0, s1 = sl[0].as_atom()[1], sl[0].as_atom()[2]
     ok = ok and (s0 - (i - seed)).is_zero() and (s1 - (hi_w - seed + 1)).is_zero() if ok else False
     return bool(ok)
